@@ -21,7 +21,8 @@ class Outcome:
         self.queries = []        # Query
         self.status = "ok"       # ok | violation | known | inconclusive
         self.detail = ""
-        self.cex = None          # dict describing the counterexample
+        self.cex = None          # dict describing the (first) counterexample
+        self.cexes = []          # all natively reproduced counterexamples: [(cex, replay record)]
         self.replay = None       # native replay record
         self.validated = 0       # translator-validation databases that agreed
         self.stats = {}
@@ -57,7 +58,7 @@ class Scenario:
       timeout    : default; A; run_timeout; observe; run_timeout; observe; run; observe
     """
 
-    def __init__(self, kind, D=3, dup=False, all_inputs=True, K=12, maxm=None):
+    def __init__(self, kind, D=3, dup=False, all_inputs=True, K=64, maxm=None):
         if maxm is None:
             maxm = {"run": 2, "rerun": 2, "push": 3, "timeout": 3}[kind]
         self.kind, self.D, self.dup, self.all_inputs, self.K, self.maxm = kind, D, dup, all_inputs, K, maxm
@@ -73,6 +74,11 @@ class Scenario:
         if getattr(prog, "D", None):
             self.D = prog.D
         rels = input_rels_all(prog, self.D, getattr(self, 'input_cap', 72)) if self.all_inputs else input_rels_default(prog)
+        if getattr(prog, 'input_rels', None) is not None:
+            rels = list(prog.input_rels)
+        # relations with an initialiser start from exactly those tuples (pushing one of them again would be a
+        # caller-made duplicate, which is not what the packaging property is about)
+        rels = [r for r in rels if not prog.relmap[r].init_rows]
         reset_manager()
         if kind == "push":
             # variable order: the A- and B-variable of the same tuple next to each other
@@ -82,7 +88,7 @@ class Scenario:
                 r = prog.relmap[rn]
                 if r.lattice:
                     continue
-                doms = [Dr.column_domain(t, self.D) for t in r.types]
+                doms = [Dr.column_domain(t, self.D, prog) for t in r.types]
                 for t in itertools.product(*doms):
                     if rn in rels:
                         BVar("inA_%s_%s" % (rn, rust_repr(t)))
